@@ -651,6 +651,7 @@ pub struct Sim {
     pub ctx_dropped: bool,
     pub hold_ctx: bool,
     pub stream_handovers: u64,
+    pub task_handovers: u64,
     pub handles: Vec<Option<ContextHandle>>,
     pub ops: Vec<OpSlot>,
     pub streams: Vec<StreamSlot>,
@@ -699,6 +700,7 @@ impl Sim {
             ctx_dropped: false,
             hold_ctx: false,
             stream_handovers: 0,
+            task_handovers: 0,
             handles: vec![Some(handle)],
             ops: Vec::new(),
             streams: Vec::new(),
@@ -960,6 +962,31 @@ impl Sim {
         let idx = self.streams.len() - 1;
         self.note(|| format!("stream{idx} taken from op{op}"));
         Some(idx)
+    }
+
+    /// The future of the context call in progress (run(), connect(), authorize()) or of operation `op` moves to another task:
+    /// it is polled under a new waker from now on - once at once, by its new owner -, and only that waker counts.
+    pub fn handover_ctx(&mut self) {
+        if let Some(t) = self.ctx.as_mut() {
+            if t.alive() {
+                let id = t.w.id;
+                t.w = TaskWaker::new(id, &self.runq);
+                t.w.wake_by_ref();
+                self.task_handovers += 1;
+                self.note(|| "the context's future is handed to another task (new waker)".into());
+            }
+        }
+    }
+
+    pub fn handover_op(&mut self, op: usize) {
+        let t = &mut self.ops[op].task;
+        if t.alive() {
+            let id = t.w.id;
+            t.w = TaskWaker::new(id, &self.runq);
+            t.w.wake_by_ref();
+            self.task_handovers += 1;
+            self.note(|| format!("op{op}'s future is handed to another task (new waker)"));
+        }
     }
 
     /// The stream is handed to another task (the first one lost a select, timed out, or passed it on): from now on it is polled
